@@ -2,6 +2,7 @@
 from collections import OrderedDict
 
 import re
+from ..mip.utils import to_float
 re_name = re.compile(r'^([+*]*)(.*)')
 
 
@@ -16,7 +17,7 @@ def get_surfaces(input, lim=None):
         bc, name = re_name.match(name).groups()
         name = int(name)
         t = t.strip().lower()
-        params = list(map(float, params.split()))
+        params = list(map(to_float, params.split()))
         d[name] = (bc, tr, t, params)
         n += 1
         if lim and n > lim:
